@@ -12,7 +12,7 @@ using hfsm2::detail::Units;
 
 namespace {
 
-static const unsigned CAPS[16] = {1, 2, 7, 8, 9, 15, 16, 17, 31, 32, 33, 63, 64, 65, 100, 255};
+static const unsigned CAPS[20] = {1, 2, 7, 8, 9, 15, 16, 17, 31, 32, 33, 63, 64, 65, 100, 255, 256, 257, 300, 520};
 static const unsigned SCAPS[5] = {8, 33, 64, 129, 1000};
 
 struct Op { uint8_t k, a, b, c; };
@@ -24,7 +24,8 @@ static const char* OPN[] = {"set", "clear", "get", "setAll", "clearAll", "empty"
 //------------------------------------------------------------------------------
 // static-index dispatch
 
-template <unsigned N, unsigned I, bool = (I < N)>
+// (static indices are template parameters of type Short: only indices below 256 can be spelled)
+template <unsigned N, unsigned I, bool = (I < N && I < 256)>
 struct StaticIdx {
 	static void set  (BitArrayT<N>& a, unsigned i) { if (i == I) a.template set<I>();   else StaticIdx<N, I + 1>::set(a, i); }
 	static void clear(BitArrayT<N>& a, unsigned i) { if (i == I) a.template clear<I>(); else StaticIdx<N, I + 1>::clear(a, i); }
@@ -90,7 +91,7 @@ std::string runArray(const std::vector<Op>& ops, hv::Stats& st, bool& nontrivial
 		case V_SET: case V_CLEAR1: case V_CLEAR: case V_BOOL: case V_GET: {
 			// view = whole units [unit, unit+ceil(width/8)), addressed range [unit*8, unit*8+width) kept inside the capacity
 			const unsigned unit = o.a % UC;
-			const unsigned maxW = N - unit * 8;
+			const unsigned maxW = std::min<unsigned>(N - unit * 8, 255); // Units::width is a Short
 			const unsigned width = 1 + o.b % maxW;
 			const unsigned vi = o.c % width;
 			const unsigned base = unit * 8;
@@ -115,9 +116,9 @@ std::string runArray(const std::vector<Op>& ops, hv::Stats& st, bool& nontrivial
 				break; }
 			}
 			break; }
-		case S_SET:   if (idx < N) { StaticIdx<N, 0>::set(a, idx);   ma[idx] = true;  } break;
-		case S_CLEAR: if (idx < N) { StaticIdx<N, 0>::clear(a, idx); ma[idx] = false; } break;
-		case S_GET:   if (StaticIdx<N, 0>::get(a, idx) != ma[idx]) return fail(i, "get<I>() differs from model"); break;
+		case S_SET:   if (idx < N && idx < 256) { StaticIdx<N, 0>::set(a, idx);   ma[idx] = true;  } break;
+		case S_CLEAR: if (idx < N && idx < 256) { StaticIdx<N, 0>::clear(a, idx); ma[idx] = false; } break;
+		case S_GET:   if (idx < 256 && StaticIdx<N, 0>::get(a, idx) != ma[idx]) return fail(i, "get<I>() differs from model"); break;
 		case SV_OPS: {
 			std::string err;
 			constexpr Short W0 = N < 8 ? N : 8;
@@ -255,8 +256,8 @@ static std::string hv_run(const hv::Bytes& c, hv::Stats& st) {
 	std::vector<Op> ops = decodeOps(r);
 	bool nt = false; std::string v;
 	if (mode == 0) {
-		v = dispatchArray<1, 2, 7, 8, 9, 15, 16, 17, 31, 32, 33, 63, 64, 65, 100, 255>(sel, ops, st, nt);
-		st.cls("array_cases"); st.cls(std::string("array_cap_") + std::to_string(CAPS[sel % 16]));
+		v = dispatchArray<1, 2, 7, 8, 9, 15, 16, 17, 31, 32, 33, 63, 64, 65, 100, 255, 256, 257, 300, 520>(sel, ops, st, nt);
+		st.cls("array_cases"); st.cls(std::string("array_cap_") + std::to_string(CAPS[sel % 20]));
 	} else {
 		switch (sel % 5) {
 		case 0: v = runStream<8>(start, ops, c, st, nt); break;
@@ -281,7 +282,7 @@ static std::string hv_render(const hv::Bytes& c) {
 	std::vector<Op> ops = decodeOps(r);
 	std::ostringstream o;
 	if (mode == 0) {
-		const unsigned N = CAPS[sel % 16];
+		const unsigned N = CAPS[sel % 20];
 		o << "BitArrayT<" << N << ">:";
 		for (auto& op : ops) o << " " << OPN[op.k % A_OPS_COUNT] << "(" << ((op.a | (op.b << 8)) % N) << "|" << (int) op.a << "," << (int) op.b << "," << (int) op.c << ")";
 	} else {
@@ -297,7 +298,7 @@ static rc::Gen<hv::Bytes> hv_gen() {
 	auto op = gen::map(gen::tuple(hv::byte(), hv::byte(), hv::byte(), hv::byte()), [](const std::tuple<uint8_t, uint8_t, uint8_t, uint8_t>& t) {
 		return std::array<uint8_t, 4>{{std::get<0>(t), std::get<1>(t), std::get<2>(t), std::get<3>(t)}};
 	});
-	return gen::map(gen::tuple(hv::range(0, 2), hv::range(0, 16), hv::range(0, 8), gen::container<std::vector<std::array<uint8_t, 4>>>(op)),
+	return gen::map(gen::tuple(hv::range(0, 2), hv::range(0, 20), hv::range(0, 8), gen::container<std::vector<std::array<uint8_t, 4>>>(op)),
 		[](const std::tuple<int, int, int, std::vector<std::array<uint8_t, 4>>>& t) {
 			hv::Bytes b{(uint8_t) std::get<0>(t), (uint8_t) std::get<1>(t), (uint8_t) std::get<2>(t)};
 			for (auto& o : std::get<3>(t)) b.insert(b.end(), o.begin(), o.end());
